@@ -1298,6 +1298,19 @@ class Sym:
                 n_ = chunk_len(self, nx[2][0])
                 if n_ is not None:
                     return Poly.const(n_)
+        if t[0] == "field" and t[2] == 1:
+            # .. and the same through `enumerate()`: the item is (index, chunk)
+            e_ = unmut(t[1])
+            if e_[0] == "field" and e_[2] == 0 and unmut(e_[1])[0] == "downcast" and unmut(e_[1])[2] == "Some":
+                nx = unmut(unmut(e_[1])[1])
+                if nx[0] == "call" and short(nx[1]) == "Iterator::next" and len(nx[2]) == 1:
+                    it_ = unmut(nx[2][0])
+                    while it_[0] == "call" and short(it_[1]) == "IntoIterator::into_iter" and len(it_[2]) == 1:
+                        it_ = unmut(it_[2][0])
+                    if it_[0] == "call" and short(it_[1]) == "Iterator::enumerate" and len(it_[2]) == 1:
+                        n_ = chunk_len(self, it_[2][0])
+                        if n_ is not None:
+                            return Poly.const(n_)
         return None
 
     def lin_poly(self, ln):
@@ -2521,11 +2534,11 @@ def whole_chunk(ret, n):
 
 
 def chunk_len(sym, src):
-    """n when the iterator is `chunks_exact(_, n)` with a constant n"""
+    """n when the iterator is `chunks_exact(_, n)` / `windows(_, n)` with a constant n (every item has n elements)"""
     x = unmut(src)
     while x[0] == "call" and short(x[1]) == "IntoIterator::into_iter" and len(x[2]) == 1:
         x = unmut(x[2][0])
-    if x[0] == "call" and short(x[1]) == "<impl [T]>::chunks_exact" and len(x[2]) == 2:
+    if x[0] == "call" and short(x[1]) in ("<impl [T]>::chunks_exact", "<impl [T]>::windows") and len(x[2]) == 2:
         k = sym.poly(x[2][1])
         if k is not None and k.is_const():
             return int(k.const_value())
